@@ -457,8 +457,8 @@ def run(ctx):
                            "harness/src/bin/c04.rs + c04_util.rs (generator, canonical printer, FNV digest of long values)",
                            "C15 for Key::compare = value order of the oracle's key type"]
     return ctx.finish("proof", cov,
-                      assumptions=["proved for the logical tree model: reads, insert, delete, pops, get_mut/entry/insert_reserve, retain*, extract* consumed from one end "
-                                   "(next() only or next_back() only); extract* with mixed next()/next_back() consumption and the tie model<->code are validated per run "
-                                   "(S2 shape correspondence incl. the extract-sweep programs, S3 specification oracle)",
+                      assumptions=["proved for the logical tree model: reads, insert, delete, pops, get_mut/entry/insert_reserve, retain*, extract* consumed by ANY script of "
+                                   "next()/next_back() calls (c04_extract_mixed_refines, hypothesis: the model's entry equality standing for snapshot_matches is sound); "
+                                   "the tie model<->code is validated per run (S2 shape correspondence incl. the extract-sweep programs, S3 specification oracle)",
                                    "keys compare as Inst.key_cmp (u64 numeric, &[u8]/&str bytewise)"],
                       s2_ok=s2_ok, s2_detail=detail)
